@@ -490,6 +490,8 @@ def init(table, reload=False):
     """
     if 'neutron_activation' in table.properties and not reload:
         return
+    assert 'mass' in table.properties, \
+        "Neutron activation table requires mass properties"
     table.properties.append('neutron_activation')
 
     # Clear the existing activation table
